@@ -4,7 +4,8 @@
     the counts of a successful process_into_buffer are a function of the old control record and
     of buffer *lengths*; no sample value and no sample type enters them.  The closeness of the
     sample values (f32 output = f64 output rounded, within a small multiple of eps) is measured on
-    every run and not proved.                                                               *)
+    every run; proved for one output sample of a sinc resampler given its operands (kernel level,
+    C17_kernel_f32_f64_close), not for a whole resampler (tables, FFT).                     *)
 From Coq Require Import ZArith List Bool.
 From Rubato.Model Require Import Num Base Validate Async.
 From Rubato.Model Require Import Fft.
@@ -66,8 +67,27 @@ Theorem C17_fft_control_independent_of_T : forall (C : CNum) (S1 S2 : SNum C) u1
      fs_ctl s1' = fs_ctl s2' /\ c1 = c2).
 Proof. exact fft_control_independent_of_sample_type. Qed.
 
+(** The numerical half at the level of one output sample of a sinc resampler (one dot product of 8n taps): the binary32
+    kernel on binary32 operands against the binary64 kernel on binary64 operands, finite results.  E is the rounding-error
+    bound of C15 for the format; dot_diff is the effect of the operand differences on the exact dot product. *)
+From Coq Require Import Reals.
+From Flocq Require Import Core BinarySingleNaN.
+From Rubato.Model Require Floats.
+From Rubato.Model Require Import Kernels.
+From Rubato.Proofs Require Import KernelsR KernelMix.
+
+Theorem C17_kernel_f32_f64_close : forall k32 k64 (w32 s32 : list (binary_float 24 128)) (w64 s64 : list (binary_float 53 1024)) n,
+  length w32 = (8 * n)%nat -> length s32 = (8 * n)%nat -> length w64 = (8 * n)%nat -> length s64 = (8 * n)%nat ->
+  is_finite (@kernel Floats.CB Floats.S32 k32 w32 s32) = true -> is_finite (@kernel Floats.CB Floats.S64 k64 w64 s64) = true ->
+  (Rabs (B2R (@kernel Floats.CB Floats.S32 k32 w32 s32) - B2R (@kernel Floats.CB Floats.S64 k64 w64 s64))
+   <= E (/ 2 * bpow radix2 (- 24 + 1)) (/ 2 * bpow radix2 (3 - 128 - 24)) n (dot (map Rabs (map B2R w32)) (map Rabs (map B2R s32)))
+    + E (/ 2 * bpow radix2 (- 53 + 1)) (/ 2 * bpow radix2 (3 - 1024 - 53)) n (dot (map Rabs (map B2R w64)) (map Rabs (map B2R s64)))
+    + dot_diff (map B2R w32) (map B2R s32) (map B2R w64) (map B2R s64))%R.
+Proof. exact kernel_f32_f64_close. Qed.
+
 Print Assumptions C17_control_function_of_ctl.
 Print Assumptions C17_control_independent_of_T.
 Print Assumptions C17_async_types.
 Print Assumptions C17_fft_control_function_of_ctl.
 Print Assumptions C17_fft_control_independent_of_T.
+Print Assumptions C17_kernel_f32_f64_close.
